@@ -194,6 +194,117 @@ H = [
          bound="any ASCII text of 0..=4 symbolic bytes (not only grammar-valid spellings)", stubs=[]),
 ]
 
+
+# ------------------------------------------------------------------ visitor-callback level (C01, C02, C04, C09)
+_CB_STUBS = ["alloc::fmt::format -> fresh one-character string (message text never decides a verdict)",
+             "std::hash::RandomState::new -> fixed state (needs a syscall Kani does not model; no hash is computed on these paths)",
+             "dependency stub set (kani/src/stubs.rs): regex::Regex::new, fancy_regex::Regex::new, uriparse, base64_url::decode, "
+             "chrono::DateTime::parse_from_rfc3339 and the additional-control evaluators of validator/control.rs return Err "
+             "(statically reachable from every visitor callback; never reached with these documents)"]
+_QUICK_CB = {
+    "C01": ["c00_ident_json_uint_int", "c00_ident_json_nint_int", "c00_ident_json_int_int", "c00_ident_json_int_big",
+            "c00_ident_json_true_bool", "c00_ident_json_nil_null", "c00_value_json_eq", "c00_value_json_lt", "c00_value_json_ge",
+            "c09_range_json_int", "c00_value_json_neg_vs_uint", "c09_range_json_mixed"],
+    "C02": ["c00_ident_cbor_uint_int", "c00_ident_cbor_nint_int", "c00_ident_cbor_number_float", "c00_ident_cbor_true_bool",
+            "c00_value_cbor_eq", "c00_value_cbor_lt", "c09_range_cbor_int"],
+    "C04": ["c00_ident_json_uint_int", "c00_ident_cbor_uint_int", "c00_ident_json_nint_int", "c00_ident_cbor_nint_int",
+            "c00_value_json_eq", "c00_value_cbor_eq", "c00_value_json_lt", "c00_value_cbor_lt", "c09_range_json_int",
+            "c09_range_cbor_int", "c00_value_json_neg_vs_uint", "c09_range_json_mixed"],
+    "C09": ["c09_occ_repeating_cbor", "c09_occ_repeating_json", "c09_range_cbor_int", "c09_range_json_int",
+            "c00_value_cbor_ne", "c00_value_json_ne", "c00_ident_cbor_nint_int", "c00_ident_json_uint_int"],
+}
+_CB_FINDINGS = {"c00_value_json_neg_vs_uint": "KF-C01-json-negative-vs-uint-literal", "c09_range_json_mixed": "KF-C01-json-mixed-range"}
+
+
+def _le(v, signed=True):
+    return int.from_bytes(bytes(v), "little", signed=signed)
+
+
+def _cbor_int_bytes(n):
+    major, arg = (0, n) if n >= 0 else (1, -1 - n)
+    if arg < 24:
+        return [major << 5 | arg]
+    for ai, size in ((24, 1), (25, 2), (26, 4), (27, 8)):
+        if arg < 1 << (8 * size):
+            return [major << 5 | ai] + list(arg.to_bytes(size, "big"))
+    raise ValueError(n)
+
+
+def _cb_api(name):
+    """Public-API confirmation of a callback-level counterexample: schema text + document."""
+    side = "json" if "_json" in name else "cbor"
+
+    def doc(n):
+        return {"json": str(n)} if side == "json" else {"cbor": _cbor_int_bytes(n)}
+
+    def f(vals):
+        try:
+            if "_ident_" in name and name.endswith(("_int", "_big")):
+                ident = name.split("_")[3]
+                n = _le(vals[0], signed=not name.endswith("_big"))
+                return {"cases": [dict(cddl=f"x = {ident}", **doc(n))]}
+            if "_value_" in name:
+                v, neg, m = _le(vals[0]), vals[1][0] & 1, _le(vals[2], False)
+                if name.endswith("neg_vs_uint"):
+                    v, m, ctl = _le(vals[0]), _le(vals[1], False), vals[2][0]
+                    c, op = m, {1: ".ne", 2: ".lt", 3: ".le"}[ctl]
+                else:
+                    c = -m if neg else m
+                    op = {"eq": None, "ne": ".ne", "lt": ".lt", "le": ".le", "gt": ".gt", "ge": ".ge"}[name.rsplit("_", 1)[1]]
+                return {"cases": [dict(cddl=f"x = int {op} {c}" if op else f"x = {c}", **doc(v))]}
+            if "_range_" in name:
+                if name.endswith("cbor_int"):
+                    v, ln, un, lm, um, incl = _le(vals[0]), vals[1][0] & 1, vals[2][0] & 1, _le(vals[3], False), _le(vals[4], False), vals[5][0] & 1
+                    l, u = (-lm if ln else lm), (-um if un else um)
+                elif name.endswith("json_int"):
+                    v, neg, lm, um, incl = _le(vals[0]), vals[1][0] & 1, _le(vals[2], False), _le(vals[3], False), vals[4][0] & 1
+                    l, u = (-lm if neg else lm), (-um if neg else um)
+                else:
+                    v, lm, um, incl = _le(vals[0]), _le(vals[1], False), _le(vals[2], False), vals[3][0] & 1
+                    l, u = -lm, um
+                return {"cases": [dict(cddl=f"x = {l}{'..' if incl else '...'}{u}", **doc(v))]}
+        except Exception as ex:  # mapping is best effort; the hook-level replay is what decides
+            return {"cases": [], "mapping_error": repr(ex)}
+        return {"cases": []}
+    return ("validate", f)
+
+
+def _cb_entries():
+    import os, re
+    src = open(os.path.join(os.path.dirname(os.path.abspath(__file__)), "..", "kani", "src", "h_cb.rs")).read()
+    names = re.findall(r"!\(\s*(c00_\w+)\s*,", src) + re.findall(r"fn (c00_\w+)\(\)", src)
+    names += ["c09_occ_repeating_cbor", "c09_occ_repeating_json", "c09_range_cbor_int", "c09_range_json_int", "c09_range_json_mixed"]
+    out = []
+    for n in dict.fromkeys(names):
+        side = "json" if "_json" in n else "cbor"
+        V = "cddl::validator::json::JSONValidator" if side == "json" else "cddl::validator::cbor::CBORValidator"
+        if "_ident_" in n:
+            unit = [f"<{V} as Visitor>::visit_identifier", f"{V}::new"]
+            m = re.match(r"c00_ident_(?:json|cbor)_([a-z0-9]+)_([a-z]+)", n)
+            bound = f"prelude name `{m.group(1)}`, schema without rules, one symbolic {m.group(2)} document" + (" (−2^64…2^64−1)" if side == "cbor" and m.group(2) == "int" else "")
+            props = ["C09", "C01" if side == "json" else "C02", "C04"]
+        elif "_value_" in n:
+            unit = [f"<{V} as Visitor>::visit_value", "verif_hooks_state::set_ctrl"]
+            bound = "integer literal of either kind (magnitude symbolic), integer document symbolic (" + ("i64" if side == "json" else "−2^64…2^64−1") + "), control state " + n.rsplit("_", 1)[1]
+            props = ["C09", "C01" if side == "json" else "C02", "C04"]
+        elif "_range_" in n:
+            unit = [f"<{V} as Visitor>::visit_range"]
+            bound = "integer bounds of either literal kind (magnitudes symbolic), inclusive/exclusive symbolic, integer document symbolic"
+            props = ["C09", "C01" if side == "json" else "C02", "C04"]
+        else:
+            unit = [f"{V}::validate_repeating_member_count", f"{V}::repeating_member_upper_bound"]
+            bound = "occurrence ?, *, +, n*m, n*, *m with n, m ≤ 3 symbolic; entry count 0..=3 symbolic"
+            props = ["C09"]
+        quick_for = [p for p, l in _QUICK_CB.items() if n in l]
+        e = dict(name=n, props=props, tier="thorough", quick_for=quick_for, cost=30, unit=unit, bound=bound, stubs=_CB_STUBS, api=_cb_api(n))
+        if n in _CB_FINDINGS:
+            e["finding"] = _CB_FINDINGS[n]
+        out.append(e)
+    return out
+
+
+H += _cb_entries()
+
 BY_NAME = {h["name"]: h for h in H}
 
 
@@ -203,5 +314,5 @@ for _h in H:
 
 
 def for_property(pid, tier):
-    out = [h for h in H if pid in h["props"] and (tier == "thorough" or h["tier"] == "quick")]
+    out = [h for h in H if pid in h["props"] and (tier == "thorough" or h["tier"] == "quick" or pid in h.get("quick_for", []))]
     return out
